@@ -98,11 +98,11 @@ PROPS["C07"] = dict(
 PROPS["C08"] = dict(
     level="proof",
     text="`??` and `ok, err =` follow their definitions: Op::resolve Err arm and Variant::resolve (real bodies, Verus) against the ghost trace; From<ValueError> error class",
-    verus=["v_op_resolve", "v_nodes", "v_value_error_from"],
+    verus=["v_op_resolve", "v_nodes", "v_value_error_from", "v_target_ops", "v_assign_types"],
     kani=[],
     scans=["expr_variants"],
-    trusted=INTERP_TRUSTED,
-    not_covered=["'the stored default belongs to ok's reported type' (DefaultValue::default_value vs Variant::type_info) - Kani unit pending", "Target::insert internals (C17/C18 units)"],
+    trusted=INTERP_TRUSTED + ["assigntypes.rs prelude: TypeDef algebra as abstract member sets (union adds members; infallible/impure/or_bytes never remove members; the kind of a value contains it) - kind-level soundness of union is C19's scalar unit"],
+    not_covered=["DefaultValue::default_value itself (which default is chosen at compile time); what is proved is that whatever default is stored, ok's recorded type admits it"],
     technique="contract-based deductive verification (Verus on mechanically extracted real bodies)",
 )
 PROPS["C09"] = dict(
@@ -202,7 +202,7 @@ PROPS["C19"] = dict(
 PROPS["C12"] = dict(
     level="proof",
     text="compile-time constants vs runtime values, the pieces that are per-function contracts (Verus on extracted real bodies): Details::merge keeps a constant only if both sides agree; Variable::resolve_constant is the binding's constant; Target::insert_type_def records the rhs constant only for whole-variable assignments and changes no other variable; DelFn::type_info drops the constant of a variable it deletes from; Op::resolve_constant folds + - * / with exactly the helper Op::resolve calls at runtime",
-    verus=["v_constants", "v_op_constant"],
+    verus=["v_constants", "v_op_constant", "v_assign_types"],
     kani=[],
     trusted=["verus prelude typestate.rs: LocalEnv bindings as a ghost map (HashMap get/insert contracts), TypeDef/Kind opaque", "child contracts: Expr::resolve_constant = uninterpreted spec_const; arithmetic helpers are deterministic functions (spec_try_*), their values are decided under C10/C11",
              "the store-agreement invariant (every recorded constant equals the runtime variable) and its preservation by all other nodes is the paper induction of DESIGN section 2; only the listed nodes are machine-checked"],
